@@ -81,6 +81,11 @@ MUTANTS = {
     "c03-no-neg-zero": ("pulsarbat/transforms/transforms.py", "        shifted[ix] = 0\n\n    x = type(z).like(z, shifted)", "        if a >= 0 or len(it.multi_index) == 0:\n            shifted[ix] = 0\n\n    x = type(z).like(z, shifted)", ["C03"]),
     "c03-phase-sign": ("pulsarbat/transforms/transforms.py", "ph = np.exp(-2j * np.pi * shift * f).astype(np.complex64)", "ph = np.exp(-2j * np.pi * shift * np.abs(f)).astype(np.complex64)", ["C03"]),
     "c03-lastaxis-only": ("pulsarbat/transforms/transforms.py", "np.nditer(np.broadcast_to(shift, shifted.shape[1:]), flags", "np.nditer(np.broadcast_to(shift, shifted.shape[1:]) if shift.ndim < 2 else shift, flags", ["C03"]),
+    "c04-ceil-floor": ("pulsarbat/transforms/transforms.py", "            a = int(np.ceil(a))\n            ix = (np.s_[:a],) + it.multi_index\n\n        x[ix] = 0",
+                       "            a = int(np.floor(a))\n            ix = (np.s_[:a],) + it.multi_index\n\n        x[ix] = 0", ["C04"]),
+    "c04-len-minus1": ("pulsarbat/transforms/transforms.py", "np.broadcast_to(ft * len(x), x.shape[1:])", "np.broadcast_to(ft * (len(x) - 1), x.shape[1:])", ["C04"]),
+    "c04-zero-before-shift": ("pulsarbat/transforms/transforms.py", "    x = np.fft.fftshift(pb.fft.fft(z.data * ph, axis=0), axes=(0,))", "    x = np.array(pb.fft.fft(z.data * ph, axis=0))", ["C04"]),
+    "c04-sign": ("pulsarbat/transforms/transforms.py", "ph = np.exp(2j * np.pi * ft * n[ix]).astype(z.dtype)", "ph = np.exp(-2j * np.pi * ft * n[ix]).astype(z.dtype)", ["C04"]),
 }
 
 # behaviour-preserving edits: no check may fire
